@@ -1,7 +1,7 @@
 (* C02 - static types describe runtime values.
    Only statements here; proofs in Proofs/C02_Types.v; the model in Model/C02_Types.v. *)
 From Coq Require Import ZArith List Bool.
-From Elk Require Import Model.C02_Types Proofs.C02_Types.
+From Elk Require Import Model.C02_Types Proofs.C02_Types Model.C02_Classes Proofs.C02_Classes.
 Import ListNotations.
 Open Scope Z_scope.
 
@@ -133,4 +133,119 @@ Example C02_narrow_nonvacuous :
   narrow [(1, [TNilable TInt])] [(1, [TNilable TInt])] (ENot (EVar 1)) ATruthy = Some (Some (1, TNil)) /\
   narrow [(1, [TNilable TBool])] [(1, [TNilable TBool])] (EIsNil true (EVar 1)) AFalsy = Some (Some (1, TNil)) /\
   check_e [(1, [TNilable TBool])] (ENilCo (EVar 1) (ELitI 5)) = Some (TUnion (TUnion TTrue TFalse) (TLitI 5)).
+Proof. vm_compute. repeat split; reflexivity. Qed.
+
+(* ======================================================================================
+   Classes, subclassing, and narrowing by the is-a / instance-of operators
+   (Model/C02_Classes.v). Value sets: [[C]] = instances of C or of a subclass, [[exact C]] =
+   direct instances of C only; ct ranges over ALL class tables (any depth, any shape). *)
+
+(* The four narrowing operators `x <: C`, `C :> x`, `x <<: C`, `C :>> x` as narrowBinary
+   dispatches them (instance-of else-branch as in fixes/C02-instance-of-else.patch): whichever way
+   the test goes at run time, the tested value belongs to the type the local is narrowed to in the
+   branch that is taken. *)
+Theorem C02_cls_narrow_sound : forall ct o c cur v,
+  kmem ct cur v = true ->
+  (test_val ct o v c = true -> kmem ct (narrow_tok true o true c cur) v = true) /\
+  (test_val ct o v c = false -> kmem ct (narrow_tok true o false c cur) v = true).
+Proof.
+  intros ct o c cur v Hm.
+  pose proof (narrow_tok_sound true ct [(0, v)] o 0 c cur v (or_introl eq_refl) eq_refl Hm) as H.
+  split; intros E; rewrite E in H; exact H.
+Qed.
+Print Assumptions C02_cls_narrow_sound.
+
+(* Conditions built from the four tests with !, &&, || (narrowUnary / narrowLogicalAnd /
+   narrowLogicalOr): the environment narrowed for the branch that is taken still describes the
+   runtime values. *)
+Theorem C02_cls_cond_sound : forall ct r k G b,
+  kenv_ok ct G r -> eval_c ct r k = Some b -> kenv_ok ct (narrow_c true G k b) r.
+Proof. intros ct r k G b Hok He. eapply narrow_c_ok; eauto. left; reflexivity. Qed.
+Print Assumptions C02_cls_cond_sound.
+
+(* Preservation: every probe executed by any program of the fragment (nested if/else over such
+   conditions) sees a value that belongs to the probe's static type. *)
+Theorem C02_cls_preservation : forall ct G r s lg,
+  kenv_ok ct G r -> krun true ct G r s = Some lg -> klog_ok ct lg = true.
+Proof. intros ct G r s lg Hok Hr. eapply krun_sound; eauto. left; reflexivity. Qed.
+Print Assumptions C02_cls_preservation.
+
+(* ... and the static type logged with an executed probe is the one the annotation pass reports. *)
+Theorem C02_cls_probe_types : forall fx ct r s G lg,
+  krun fx ct G r s = Some lg -> incl (map fst lg) (kannot fx G s).
+Proof. exact krun_types_annot. Qed.
+Print Assumptions C02_cls_probe_types.
+
+(* The rule AS FOUND (else-branch of `x <<: C` / `C :>> x` narrows to `T & ~C` instead of
+   `T & ~exact C`) is unsound as soon as a proper subclass exists:
+     class Foo; class Bar < Foo;  a : Foo | Int holding a Bar;  if a <<: Foo ... else probe a
+   the probe has static type (Foo | Int) & ~Foo (the checker prints Int) and sees a Bar. *)
+Definition instof_else_witness : kstmt := KIf (CTest TInstOf 0 1) KSkip (KProbe 0 0).
+
+Theorem C02_cls_instance_of_else_refuted : exists ct G r s lg,
+  kenv_ok ct G r /\ krun false ct G r s = Some lg /\ klog_ok ct lg = false.
+Proof.
+  exists [(2, 1)], [(0, KUnion (KClass 1) (KClass 100))], [(0, VObj 2)], instof_else_witness.
+  eexists. split; [|split; [vm_compute; reflexivity|vm_compute; reflexivity]].
+  intros x t H. cbn in H. destruct x; try discriminate.
+  inversion H; subst t. exists (VObj 2). split; reflexivity.
+Qed.
+Print Assumptions C02_cls_instance_of_else_refuted.
+
+(* The rule as found is sound exactly outside that class: when no local holds an instance of a
+   PROPER subclass of a class that the program uses as an instance-of operand. *)
+Theorem C02_cls_preservation_partial : forall ct G r s lg,
+  no_proper_sub ct r (instof_ops s) ->
+  kenv_ok ct G r -> krun false ct G r s = Some lg -> klog_ok ct lg = true.
+Proof. intros ct G r s lg Hn Hok Hr. eapply krun_sound; eauto. right; exact Hn. Qed.
+Print Assumptions C02_cls_preservation_partial.
+
+(* Static binding (compileCallMethod binds the call when the receiver type is `exact C` or a class
+   without children): a value of such a type is a DIRECT instance of C, so the statically chosen
+   method is the one dynamic dispatch would have run. *)
+Theorem C02_cls_static_binding_sound : forall ct t c v,
+  static_target ct t = Some c -> kmem ct t v = true ->
+  v = VObj c /\ forall ovr d, v = VObj d -> resolve ct ovr d = resolve ct ovr c.
+Proof.
+  intros ct t c v Hs Hm. pose proof (static_target_sound ct t c v Hs Hm) as H.
+  split; [exact H|]. intros ovr d Hd. rewrite H in Hd. inversion Hd. reflexivity.
+Qed.
+Print Assumptions C02_cls_static_binding_sound.
+
+(* ---- non-vacuity. Hierarchy: 2 < 1, 3 < 2 (three levels), 4 a root, 100 = Int. *)
+Definition ct3 : ctable := [(2, 1); (3, 2)].
+
+Example C02_cls_values_nonvacuous :
+  kmem ct3 (KClass 1) (VObj 3) = true /\ kmem ct3 (KExact 1) (VObj 3) = false /\
+  kmem ct3 (KExact 1) (VObj 1) = true /\ kmem ct3 (KClass 2) (VObj 1) = false /\
+  kmem ct3 (KAnd (KClass 1) (KNot (KExact 1))) (VObj 2) = true /\
+  kmem ct3 (KAnd (KClass 1) (KNot (KExact 1))) (VObj 1) = false /\
+  resolve ct3 [1; 3] 2 = Some 1 /\ resolve ct3 [1; 3] 3 = Some 3 /\
+  static_target ct3 (KClass 1) = None /\ static_target ct3 (KClass 3) = Some 3 /\
+  static_target ct3 (KExact 1) = Some 1.
+Proof. vm_compute. repeat split; reflexivity. Qed.
+
+(* narrowing the reversed is-a test `C :> x` to the EXACT class would be unsound: the model
+   distinguishes the two rules (a direct-class-3 object passes `1 :> x` but is no `exact 1`) *)
+Example C02_cls_rev_isa_is_not_exact :
+  test_val ct3 TRevIsA (VObj 3) 1 = true /\
+  narrow_tok true TRevIsA true 1 (KUnion (KClass 1) (KClass 100)) = KClass 1 /\
+  kmem ct3 (KExact 1) (VObj 3) = false /\
+  narrow_tok true TRevInstOf true 1 (KUnion (KClass 1) (KClass 100)) = KExact 1.
+Proof. vm_compute. repeat split; reflexivity. Qed.
+
+(* if v0 <: 2; P0; if 3 :>> v0; P1 else P2 end else P3; if !(1 :> v0) P4 else P5 end end *)
+Definition cls_sample : kstmt :=
+  KIf (CTest TIsA 0 2)
+      (KSeq (KProbe 0 0) (KIf (CTest TRevInstOf 0 3) (KProbe 1 0) (KProbe 2 0)))
+      (KSeq (KProbe 3 0) (KIf (CNot (CTest TRevIsA 0 1)) (KProbe 4 0) (KProbe 5 0))).
+
+Example C02_cls_preservation_nonvacuous :
+  let G := [(0, KUnion (KClass 1) (KUnion (KClass 4) KNil))] in
+  krun true ct3 G [(0, VObj 2)] cls_sample =
+    Some [(0, KClass 2, VObj 2); (2, KAnd (KClass 2) (KNot (KExact 3)), VObj 2)] /\
+  krun true ct3 G [(0, VObj 1)] cls_sample =
+    Some [(3, KAnd (KUnion (KClass 1) (KUnion (KClass 4) KNil)) (KNot (KClass 2)), VObj 1);
+          (5, KClass 1, VObj 1)] /\
+  length (kannot true G cls_sample) = 6%nat.
 Proof. vm_compute. repeat split; reflexivity. Qed.
